@@ -1,4 +1,4 @@
-use anyhow::{anyhow, Context, Result};
+use anyhow::{anyhow, bail, Context, Result};
 use duke::tree::class::{ObjClassName, ObjClassNameSlice};
 use crate::tree::mappings::{ClassMapping, ClassNowodeMapping, Mappings};
 use crate::tree::names::{Names, Namespace};
@@ -63,6 +63,9 @@ impl<const N: usize, Ns> Mappings<N, Ns> {
 	}
 	pub fn contract_inner_class_names(&self, namespace: &str) -> Result<Mappings<N, Ns>> {
 		let namespace = self.get_namespace(namespace)?;
+		if namespace == Namespace::new(0)? {
+			bail!("cannot contract the class names of the first namespace, as they need to be kept in sync with the keys");
+		}
 		Ok(Mappings {
 			info: self.info.clone(),
 			classes: self.classes.iter()
